@@ -24,6 +24,71 @@ HEAVY = ["run.model", "solvers", "solvers.greedy", "solvers.largest_coalition", 
          "run.greedy", "run.best_states", "run.solve", "run.save"]
 
 
+class _IndexRewriter(__import__("ast").NodeTransformer):
+    """a[i] -> a[__symx_index__(i)] in every context (load, store, augmented assignment, del); slices are left alone."""
+
+    def _wrap(self, node):
+        import ast
+        if isinstance(node, ast.Slice):
+            return node
+        if isinstance(node, ast.Tuple):
+            node.elts = [self._wrap(e) for e in node.elts]
+            return node
+        if isinstance(node, ast.Constant):
+            return node
+        return ast.copy_location(ast.Call(func=ast.Name(id="__symx_index__", ctx=ast.Load()), args=[node], keywords=[]), node)
+
+    def visit_Subscript(self, node):
+        self.generic_visit(node)
+        node.slice = self._wrap(node.slice)
+        return node
+
+
+def _symx_index(idx):
+    """An object array of truth values used as an index: numpy refuses it on a plain integer / float array (no protocol hook exists),
+    so it is made concrete here - all-concrete masks directly, symbolic ones by forking on every element (as SymArray.__getitem__ does)."""
+    if isinstance(idx, np.ndarray) and idx.dtype == object and idx.size:
+        from .values import SymBool
+        flat = list(idx.flat)
+        if all(isinstance(x, (bool, np.bool_, SymBool)) for x in flat):
+            return np.array([bool(x) for x in flat], dtype=bool).reshape(idx.shape)
+    return idx
+
+
+def _install_source_hook():
+    """Import hook for the package under analysis: same source files, subscripts routed through __symx_index__."""
+    import ast
+    import builtins
+    import importlib.abc
+    import importlib.machinery
+
+    builtins.__symx_index__ = _symx_index
+
+    class Loader(importlib.machinery.SourceFileLoader):
+        def get_code(self, fullname):
+            # never use (or write) cached bytecode: the code object must come from the current source through the rewriter
+            path = self.get_filename(fullname)
+            return self.source_to_code(self.get_data(path), path)
+
+        def source_to_code(self, data, path, *, _optimize=-1):
+            tree = ast.parse(data, path)
+            tree = _IndexRewriter().visit(tree)
+            ast.fix_missing_locations(tree)
+            return compile(tree, path, "exec", dont_inherit=True, optimize=_optimize)
+
+    class Finder(importlib.abc.MetaPathFinder):
+        def find_spec(self, fullname, path, target=None):
+            if fullname != PKG and not fullname.startswith(PKG + "."):
+                return None
+            spec = importlib.machinery.PathFinder.find_spec(fullname, path)
+            if spec is None or not isinstance(spec.loader, importlib.machinery.SourceFileLoader):
+                return spec
+            spec.loader = Loader(spec.loader.name, spec.loader.path)
+            return spec
+
+    sys.meta_path.insert(0, Finder())
+
+
 def repo_path():
     return os.environ.get("VERIF_REPO", "/repo")
 
@@ -42,6 +107,8 @@ def load(symbolic=True, heavy=False, repo=None) -> Pkg:
     ns = Pkg()
     ns.symbolic = symbolic
     ns.repo = repo
+    if symbolic:
+        _install_source_hook()
     P = importlib.import_module(PKG + ".protocols")
     real_exp = math.exp
     if symbolic:
